@@ -1,4 +1,5 @@
 import IdModel.Jose.JwsLemmas
+import IdModel.Props.C11
 /-!
 # C08 — every JWS the library produces decodes and verifies to what was signed
 
@@ -194,6 +195,120 @@ theorem flattened_roundtrip (S : Hdr → Bytes) (P : Bytes → Option Hdr) (hc :
           simp only [hexp]
           exact key
         · cases he
+
+/-! ## general serialisation -/
+
+theorem validateRecipient_ok (p u : Option Hdr) (h : validateRecipient p u = .ok ()) :
+    validate p u = .ok () ∧ (p.isSome ∨ u.isSome) := by
+  unfold validateRecipient at h
+  split at h
+  · cases h
+  · rename_i hn
+    refine ⟨h, ?_⟩
+    cases p <;> cases u <;> simp_all
+
+theorem maybeEncode_congr (payload : Bytes) (p q : Option Hdr) (h : extractB64 p = extractB64 q) :
+    maybeEncode payload p = maybeEncode payload q := by
+  unfold maybeEncode; rw [h]
+
+/-- the member-level entry the general encoder writes for one recipient -/
+def entry (S : Hdr → Bytes) (pp : Bytes) (r : Option Hdr × Option Hdr × Bytes) : SigMembers :=
+  { prot := (signingData S pp r.1).1, header := r.2.1, signature := B64.enc r.2.2 }
+
+theorem sigB64_entry (S : Hdr → Bytes) (P : Bytes → Option Hdr) (hc : Codec S P) (pp : Bytes)
+    (r : Option Hdr × Option Hdr × Bytes) : sigB64 P (entry S pp r) = some (extractB64 r.1) := by
+  obtain ⟨p, u, sg⟩ := r
+  unfold sigB64 entry signingData
+  cases p with
+  | none => rfl
+  | some h =>
+    simp only [Option.map_some, B64.dec_enc (S h) (hc.bytes h), hc.roundtrip h]
+
+theorem filterMap_sigB64 (S : Hdr → Bytes) (P : Bytes → Option Hdr) (hc : Codec S P) (pp : Bytes)
+    (rs : List (Option Hdr × Option Hdr × Bytes)) :
+    (rs.map (entry S pp)).filterMap (sigB64 P) = rs.map fun r => extractB64 r.1 := by
+  induction rs with
+  | nil => rfl
+  | cons r t ih =>
+    simp only [List.map_cons, List.filterMap_cons, sigB64_entry S P hc pp r, ih]
+
+/-- **general round trip** (member level): every recipient's entry of a token the general encoder produced decodes to
+that recipient's headers, signature, the payload that was signed, and the signing input it signed over -/
+theorem general_roundtrip (S : Hdr → Bytes) (P : Bytes → Option Hdr) (hc : Codec S P)
+    (payload : Bytes) (detached : Bool) (p0 u0 : Option Hdr) (s0 : Bytes)
+    (rest : List (Option Hdr × Option Hdr × Bytes)) (tok : Option Bytes × List SigMembers)
+    (hne : payload ≠ []) (hpl : B64.Bytes payload)
+    (hsigs : ∀ r ∈ (p0, u0, s0) :: rest, B64.Bytes r.2.2)
+    (he : generalEncode S payload detached ((p0, u0, s0) :: rest) = .ok tok) :
+    decodeGeneral P tok.1 tok.2 (if detached then some (maybeEncode payload p0) else none) =
+      some (((p0, u0, s0) :: rest).map fun r =>
+        some { prot := r.1, unprot := r.2.1, signingInput := generalSigningInput S payload p0 r.1,
+               signature := r.2.2, claims := payload }) := by
+  unfold generalEncode at he
+  simp only at he
+  cases hg : generalEncoder (((p0, u0, s0) :: rest).map fun r => (r.1, r.2.1)) with
+  | some i => rw [hg] at he; cases he
+  | none =>
+    rw [hg] at he
+    simp only at he
+    injection he with he
+    subst he
+    have hall := C11.general_encoder_b64_agree _ hg
+    have hrec : ∀ r ∈ (p0, u0, s0) :: rest,
+        extractB64 r.1 = extractB64 p0 ∧ validateRecipient r.1 r.2.1 = .ok () := by
+      intro r hr
+      have h1 : (r.1, r.2.1) ∈ ((p0, u0, s0) :: rest).map fun r => (r.1, r.2.1) :=
+        List.mem_map.2 ⟨r, hr, rfl⟩
+      have h0 : (p0, u0) ∈ ((p0, u0, s0) :: rest).map fun r => (r.1, r.2.1) :=
+        List.mem_map.2 ⟨(p0, u0, s0), List.mem_cons_self .., rfl⟩
+      exact hall _ h1 _ h0
+    have me_ne : maybeEncode payload p0 ≠ [] := by
+      unfold maybeEncode
+      split
+      · intro hh
+        have := B64.dec_enc payload hpl
+        rw [hh] at this
+        simp [B64.dec] at this
+        exact hne this
+      · exact hne
+    have hexp : expandPayload (if detached then some (maybeEncode payload p0) else none)
+        (if detached then none else some (maybeEncode payload p0)) = some (maybeEncode payload p0) := by
+      cases detached with
+      | true => simp [expandPayload]
+      | false =>
+        simp only [Bool.false_eq_true, ↓reduceIte]
+        unfold expandPayload
+        have : (some (maybeEncode payload p0)).filter (fun q => !q.isEmpty) = some (maybeEncode payload p0) := by
+          cases hh : maybeEncode payload p0 with
+          | nil => exact absurd hh me_ne
+          | cons => rfl
+        rw [this]
+    unfold decodeGeneral
+    simp only [hexp]
+    have hmap : (((p0, u0, s0) :: rest).map fun r =>
+        ({ prot := (signingData S (maybeEncode payload p0) r.1).1, header := r.2.1,
+           signature := B64.enc r.2.2 } : SigMembers)) =
+        ((p0, u0, s0) :: rest).map (entry S (maybeEncode payload p0)) := rfl
+    rw [hmap, filterMap_sigB64 S P hc]
+    have hagree : ((rest.map fun r => extractB64 r.1).all fun x => x == extractB64 p0) = true := by
+      simp only [List.all_eq_true, beq_iff_eq, List.mem_map]
+      rintro x ⟨r, hr, rfl⟩
+      exact (hrec r (List.mem_cons_of_mem _ hr)).1
+    have hpt : ∀ r ∈ (p0, u0, s0) :: rest,
+        decodeSignature P (maybeEncode payload p0) (entry S (maybeEncode payload p0) r).prot
+          (entry S (maybeEncode payload p0) r).header (entry S (maybeEncode payload p0) r).signature =
+        some { prot := r.1, unprot := r.2.1, signingInput := generalSigningInput S payload p0 r.1,
+               signature := r.2.2, claims := payload } := by
+      intro r hr
+      obtain ⟨hb, hv⟩ := hrec r hr
+      obtain ⟨hval, hsome⟩ := validateRecipient_ok _ _ hv
+      have hme : maybeEncode payload p0 = maybeEncode payload r.1 := maybeEncode_congr payload _ _ hb.symm
+      have key := decodeSignature_encoded S P hc payload r.2.2 r.1 r.2.1 hval hsome hpl (hsigs r hr)
+      simp only [entry, generalSigningInput]
+      rw [hme]
+      exact key
+    simp only [List.map_cons, hagree, ↓reduceIte, List.map_map, Option.some.injEq, List.cons.injEq]
+    exact ⟨hpt _ (List.mem_cons_self ..), List.map_congr_left (fun r hr => hpt r (List.mem_cons_of_mem _ hr))⟩
 
 /-- the encoders accept exactly the header sets the shared policy accepts (C11) -/
 theorem encoder_accepts_iff_validate (S : Hdr → Bytes) (payload : Bytes) (h : Hdr) :
